@@ -44,6 +44,7 @@ const (
 	planClientEarly  = 3 // client closes after sending planArg bytes while the target keeps sending
 	planTargetEarly  = 4 // target closes (arg2=0) or resets (arg2=1) after sending planArg bytes
 	planTargetWrErr  = 5 // the target's socket fails the server's write after planArg bytes
+	planTargetWrErrRead = 6 // same, but the client does not close: it keeps reading (slowly) what the target sent until the server ends the stream
 )
 
 func genC06(r *hysim.Rand, tier string) *hysim.Script {
@@ -83,6 +84,32 @@ func genC06(r *hysim.Rand, tier string) *hysim.Script {
 			int64(r.Pick(1, 100, 1500, 16384, 100000)), int64(r.Pick(1, 100, 1500, 16384, 100000)),
 			plan, arg, r.Pick64(0, 0, 100, 5000), dialFail, int64(r.Intn(2)),
 		}})
+	}
+	if r.Chance(1, 6) {
+		// stratum: a relay is torn down (the target refuses the client's bytes) while a chunk
+		// towards a slowly reading client is still in flight, and the next relays start at once
+		sc.Cfg["stratum"] = 3
+		sc.Cfg["logger"] = int64(r.Pick(1, 1, 1, 0))
+		sc.Cfg["win_small"] = int64(r.Pick(1, 1, 0))
+		sc.Cfg["slow_cli_us"] = r.Pick64(300, 2000, 20000)
+		sc.Cfg["slow_tgt_us"] = 0
+		sc.Cfg["early_deadline"] = 0
+		sc.Ops = nil
+		n := r.Range(2, 4)
+		for k := 0; k < n; k++ {
+			if k == 0 || r.Chance(1, 4) {
+				sc.Ops = append(sc.Ops, hysim.Op{K: "conn", A: []int64{
+					r.Pick64(0, 0, 5), r.Pick64(1000, 5000, 40000), r.Pick64(100000, 200000, 400000),
+					int64(r.Pick(100, 1500, 16384)), int64(r.Pick(16384, 100000)),
+					planTargetWrErrRead, r.Pick64(0, 1, 100, 3000), 0, 0, 0}})
+			} else {
+				sc.Ops = append(sc.Ops, hysim.Op{K: "conn", A: []int64{
+					r.Pick64(1, 5, 20, 50, 300, 1000), r.Pick64(0, 100, 40000), r.Pick64(65536, 100000, 300000),
+					int64(r.Pick(1500, 16384)), int64(r.Pick(16384, 100000)),
+					int64(r.Pick(planComplete, planTargetCloses)), 0, 0, 0, 0}})
+			}
+		}
+		return sc
 	}
 	if stratum == 2 && r.Chance(1, 3) {
 		// veto racing with the end of the opposite direction: the target closes (or the client
@@ -161,9 +188,12 @@ func execC06(x *hysim.Run) {
 		}
 		c := &c06Conn{k: k, cSize: clamp(op.Arg(1), 0, 4<<20), tSize: clamp(op.Arg(2), 0, 4<<20),
 			cChunk: int(clamp(op.Arg(3), 1, 1<<20)), tChunk: int(clamp(op.Arg(4), 1, 1<<20)),
-			plan: int(clamp(op.Arg(5), 0, 5)), planArg: clamp(op.Arg(6), 0, 4<<20), pace: time.Duration(clamp(op.Arg(7), 0, 1000000)) * time.Microsecond,
+			plan: int(clamp(op.Arg(5), 0, 6)), planArg: clamp(op.Arg(6), 0, 4<<20), pace: time.Duration(clamp(op.Arg(7), 0, 1000000)) * time.Microsecond,
 			dialFail: op.Arg(8) == 1, planArg2: int(op.Arg(9) & 1), startAfter: time.Duration(clamp(op.Arg(0), 0, 60000)) * time.Millisecond,
 			done: make(chan struct{}), tgtStarted: make(chan struct{})}
+		if c.plan == planTargetWrErrRead && c.cSize <= c.planArg {
+			c.plan = planComplete // the write error would never fire and nobody would end the relay
+		}
 		switch c.plan {
 		case planClientCloses:
 			c.tSize = 0
@@ -209,7 +239,7 @@ func execC06(x *hysim.Run) {
 				x.Violate("write-before-log", "server has written %d bytes to targets but the traffic logger has approved only %d", cw.wroteTgt, cw.approvedTx)
 			}
 		}
-		if c.plan == planTargetWrErr {
+		if c.plan == planTargetWrErr || c.plan == planTargetWrErrRead {
 			t.srvEnd.FailWriteAt(c.planArg, errors.New("injected target write error"))
 		}
 		hysim.Go("harness:target", func() { cw.runTarget(c) })
